@@ -151,6 +151,9 @@ def dispatchIncoming (m : Msg) : List Out :=
   else if 64 ≤ m.code ∧ m.code < 192 then [.response m]   -- `msg.code.is_response()`
   else [.request m]
 
+/-- `self._spool = self._spool[msglen:]` -/
+def Conn.consume (c : Conn) (n : Nat) : Conn := { c with spool := c.spool.drop n }
+
 /-- one iteration of the `while True` loop of `data_received` -/
 inductive Step
   | wait                                   -- `break`: more data needed
@@ -173,7 +176,7 @@ def step (c : Conn) : Step :=
         let o := abortOuts txtFailedParse none
         .stop (c.note o) o
       | some m =>
-        let c1 : Conn := { c with spool := c.spool.drop msglen }   -- tcp.py:210
+        let c1 : Conn := c.consume msglen                 -- tcp.py:210
         if m.code ≥ 224 then                               -- `msg.code.is_signalling()`
           let r := processSignaling c1 m
           .next r.1 r.2
